@@ -979,8 +979,8 @@ fn main() {
 		}
 	}
 	// ---------------- phase G: the same messages with asynchronous vs synchronous lookup answers ----------
-	// Scripts in which every message is VALID (right signer, limits respected), every SCID is announced once and
-	// timestamps are pairwise distinct: delivering them with UtxoResult::Async (resolved at arbitrary later points,
+	// Scripts in which every message is VALID (right signer, limits respected), every lookup SUCCEEDS, every SCID is
+	// announced once and timestamps are pairwise distinct (increasing in arrival order): delivering them with UtxoResult::Async (resolved at arbitrary later points,
 	// messages arriving in between) must give the same graph as with the same answers given synchronously.
 	// (With wrongly signed / conflicting messages the two may differ — see the theorems
 	// async_drops_valid_update_behind_forged_newer / cfg `partial`; those scripts are only counted.)
@@ -1006,7 +1006,10 @@ fn main() {
 						let scid = to_announce.pop().unwrap();
 						let a = 1 + rng.below(NK as u64 - 1);
 						let (n1, n2) = (a, a + 1 + rng.below(NK as u64 - a));
-						let res = if rng.chance(1, 10) { Utxo::UnknownTx } else { Utxo::Value(*rng.pick(&[1000u64, 5, 2_000_000])) };
+						// a FAILED asynchronous lookup still replays what was parked in it (a node announcement then lands if the
+						// node became known through another channel meanwhile: theorem async_failed_lookup_still_replays_parked):
+						// the strict comparison is made for scripts whose lookups all succeed
+						let res = if !all_valid && rng.chance(1, 4) { Utxo::UnknownTx } else { Utxo::Value(*rng.pick(&[1000u64, 5, 2_000_000])) };
 						let utxo = if rng.chance(7, 10) { results.insert(scid, res); open.push(scid); Utxo::Async(scid) } else { res };
 						ann_nodes.insert(scid, (n1, n2));
 						script.push(Op::Ca { scid, n1, n2, same_btc: false, chain_ok: true, verify: !rng.chance(1, 8), sigs: [true; 4], utxo });
